@@ -8,7 +8,7 @@ D2(k, v, k2, v2) == DictV(<< <<s(k), v>>, <<s(k2), v2>> >>)
 ItemS == SchemaF(<< <<"p", With(IntF, [hasmin |-> TRUE, min |-> 1, hasmax |-> TRUE, max |-> 9, required |-> TRUE])>>,
                     <<"q", With(StringF, [default |-> s(<<"q">>)])>> >>)
 DeepS == SchemaF(<< <<"z", With(BoolF, [default |-> BoolV(FALSE)])>> >>)
-SubS  == SchemaF(<< <<"x", With(IntF, [default |-> IntV(1), required |-> TRUE])>>,
+SubS  == [validators |-> <<"x_not_3">>] @@ SchemaF(<< <<"x", With(IntF, [default |-> IntV(1), required |-> TRUE])>>,
                     <<"y", With(StringF, [choices |-> << <<"u">>, <<"v">> >>])>>,
                     <<"deep", DeepS>> >>)
 SchemaA == SchemaF(<<
@@ -16,14 +16,17 @@ SchemaA == SchemaF(<<
     <<"s", With(StringF, [tcase |-> "lower", stripm |-> "ws", maxlen |-> 3])>>,
     <<"l", With(ListF(With(IntF, [hasmin |-> TRUE, min |-> 0])), [default |-> ListV(<<IntV(1)>>)])>>,
     <<"d", With(DictF(With(StringF, [tcase |-> "upper"]), IntF), [default |-> DictV(<<>>)])>>,
+    <<"l2", With(ListF(IntF), [default |-> ListV(<<IntV(-5)>>)])>>,
     <<"sub", SubS>>,
-    <<"items", ListF(ItemS)>> >>)
+    <<"items", ListF(ItemS)>>,
+    <<"ditems", With(ListF(ItemS), [default |-> ListV(<<D1(<<"p">>, IntV(5))>>)])>> >>)
 
-MCKeyNames == {"a", "s", "l", "d", "sub", "x", "y", "deep", "z", "items", "p", "q", "zz"}
+MCKeyNames == {"l2", "ditems", "a", "s", "l", "d", "sub", "x", "y", "deep", "z", "items", "p", "q", "zz"}
 MCKeyChars == [k \in MCKeyNames |->
     CASE k = "a" -> <<"a">> [] k = "s" -> <<"s">> [] k = "l" -> <<"l">> [] k = "d" -> <<"d">>
       [] k = "sub" -> <<"s","u","b">> [] k = "x" -> <<"x">> [] k = "y" -> <<"y">>
       [] k = "deep" -> <<"d","e","e","p">> [] k = "z" -> <<"z">> [] k = "items" -> <<"i","t","e","m","s">>
+      [] k = "l2" -> <<"l","2">> [] k = "ditems" -> <<"d","i","t","e","m","s">>
       [] k = "p" -> <<"p">> [] k = "q" -> <<"q">> [] k = "zz" -> <<"z","z">>]
 MCEnviron == [n \in {} |-> <<>>]
 
@@ -35,13 +38,13 @@ MCSetCands ==
           [] pk = << <<>>, "s">> -> {s(<<" ", "A", "b", " ">>), s(<<"a", "b", "c", "d">>), IntV(1)}
           [] pk = << <<>>, "l">> -> {ListV(<<IntV(2), s(<<"3">>)>>), ListV(<<IntV(-1)>>), s(<<"x">>), ListV(<<>>)}
           [] pk = << <<>>, "d">> -> {D1(<<"k">>, IntV(1)), D1(<<"k">>, s(<<"x">>)), ListV(<<>>)}
-          [] pk = << <<>>, "sub">> -> {D1(<<"x">>, IntV(2)), D1(<<"x">>, s(<<"b">>)), D2(<<"x">>, IntV(2), <<"z","z">>, IntV(1)),
+          [] pk = << <<>>, "sub">> -> {D1(<<"x">>, IntV(2)), D1(<<"x">>, IntV(3)), D1(<<"x">>, s(<<"b">>)), D2(<<"x">>, IntV(2), <<"z","z">>, IntV(1)),
                                       D1(<<"x">>, NoneV), IntV(1), [t |-> "cfgobj", c |-> SubDefault],
                                       D2(<<"y">>, s(<<"u">>), <<"x">>, s(<<"b">>))}
           [] pk = << <<>>, "items">> -> {ListV(<<D1(<<"p">>, IntV(1))>>), ListV(<<D1(<<"p">>, IntV(0))>>),
                                         ListV(<<D1(<<"q">>, s(<<"r">>))>>), ListV(<<IntV(1)>>)}
           [] pk = << <<>>, "zz">> -> {IntV(1)}
-          [] pk = << <<"sub">>, "x">> -> {IntV(2), NoneV, s(<<"q">>)}
+          [] pk = << <<"sub">>, "x">> -> {IntV(2), IntV(3), NoneV, s(<<"q">>)}
           [] pk = << <<"sub">>, "y">> -> {s(<<"u">>), s(<<"w">>)}
           [] pk = << <<"sub">>, "deep">> -> {D1(<<"z">>, s(<<"y","e","s">>)), D1(<<"z">>, s(<<"m">>))}
           [] pk = << <<"sub", "deep">>, "z">> -> {s(<<"y", "e", "s">>), s(<<"m">>)}]
@@ -50,11 +53,11 @@ MCTrees == {DictV(<<>>), D1(<<"a">>, IntV(1)), D2(<<"s">>, s(<<"X">>), <<"a">>, 
             D1(<<"i","t","e","m","s">>, ListV(<<D1(<<"p">>, IntV(2))>>)),
             D1(<<"i","t","e","m","s">>, ListV(<<D1(<<"p">>, IntV(2)), D1(<<"p">>, IntV(10))>>)),
             D2(<<"l">>, ListV(<<s(<<"4">>)>>), <<"z","z">>, IntV(1)),
-            D1(<<"d">>, D1(<<"k">>, IntV(2)))}
+            D1(<<"d">>, D1(<<"k">>, IntV(2))), D1(<<"s","u","b">>, D1(<<"x">>, IntV(3)))}
 MCKwargs == {<<>>, << <<"a", IntV(7)>> >>, << <<"a", IntV(99)>> >>, << <<"sub", D1(<<"x">>, IntV(4))>> >>,
              << <<"s", s(<<"Q">>)>>, <<"a", s(<<"b">>)>> >>, << <<"zz", IntV(1)>> >>}
 MCListOps ==
-    [pk \in {<< <<>>, "l">>, << <<>>, "items">>} |->
+    [pk \in {<< <<>>, "l">>, << <<>>, "items">>, << <<>>, "ditems">>} |->
         IF pk[2] = "l" THEN
             {[m |-> "append", v |-> IntV(4)], [m |-> "append", v |-> IntV(-1)], [m |-> "append", v |-> s(<<"5">>)],
              [m |-> "insert", i |-> 0, v |-> IntV(7)], [m |-> "insert", i |-> -1, v |-> s(<<"x">>)],
@@ -62,10 +65,13 @@ MCListOps ==
              [m |-> "setitem", i |-> 5, v |-> IntV(1)],
              [m |-> "extend", vs |-> <<IntV(1), s(<<"2">>)>>], [m |-> "iadd", vs |-> <<IntV(6), IntV(-1), IntV(8)>>],
              [m |-> "setslice_all", vs |-> <<IntV(3)>>], [m |-> "setslice_all", vs |-> <<IntV(3), s(<<"x">>)>>],
+             [m |-> "slice_from", src |-> "l2"], [m |-> "extend_from", src |-> "l2"],
              [m |-> "pop"], [m |-> "clear"], [m |-> "remove_at", i |-> 0]}
         ELSE
             {[m |-> "append", v |-> D1(<<"p">>, IntV(3))], [m |-> "append", v |-> D1(<<"p">>, IntV(0))],
              [m |-> "append", v |-> DictV(<<>>)], [m |-> "append", v |-> IntV(1)],
+             [m |-> "append", v |-> D1(<<"z","z">>, IntV(1))], [m |-> "setitem", i |-> 0, v |-> D1(<<"p">>, IntV(7))],
+             [m |-> "setitem", i |-> 0, v |-> D1(<<"p">>, IntV(70))],
              [m |-> "insert", i |-> 0, v |-> D2(<<"p">>, IntV(4), <<"q">>, s(<<"w">>))], [m |-> "pop"]}]
 MCDictOps ==
     [pk \in {<< <<>>, "d">>} |->
